@@ -4,6 +4,7 @@ package main
 // evidence and replay files, print VIOLATION / KNOWN-FINDING lines.
 
 import (
+	"go/types"
 	"encoding/json"
 	"flag"
 	"fmt"
@@ -27,6 +28,8 @@ type PropCfg struct {
 	Bounded     []string `json:"bounded"`
 	Unclaimed   []string `json:"unclaimed"`
 	Mutants     []string `json:"mutants"`
+	SharedFlow  []string `json:"sharedflow"`
+	LockFlow    []string `json:"lockflow"` // package path suffixes for the guarded-by dataflow analysis
 }
 
 type Finding struct {
@@ -161,6 +164,38 @@ func cmdProp(args []string) {
 			fmt.Fprintf(os.Stderr, "SUBSET %s: %s\n", key, e)
 			fail(fmt.Sprintf("%s#subset%d", key, i+1), map[string]any{"error": "function left the verifiable subset: " + e}, true)
 		}
+	}
+	if len(cfg.LockFlow) > 0 {
+		paths := map[string]bool{}
+		for pp := range ctx.pkgs {
+			for _, suf := range cfg.LockFlow {
+				if strings.HasSuffix(pp, suf) {
+					paths[pp] = true
+				}
+			}
+		}
+		lu := &Unit{ctx: ctx, em: newEmitter(), heapTy: map[string]types.Type{}, obSeen: map[string]int{}, extUsed: map[string]bool{}}
+		lu.em.obls = ctx.lockFlowAll(paths)
+		for _, ob := range lu.em.obls {
+			ob.Unit = lu
+		}
+		units = append(units, lu)
+	}
+	if len(cfg.SharedFlow) > 0 {
+		paths := map[string]bool{}
+		for pp := range ctx.pkgs {
+			for _, suf := range cfg.SharedFlow {
+				if strings.HasSuffix(pp, suf) {
+					paths[pp] = true
+				}
+			}
+		}
+		su := &Unit{ctx: ctx, em: newEmitter(), heapTy: map[string]types.Type{}, obSeen: map[string]int{}, extUsed: map[string]bool{}}
+		su.em.obls = ctx.sharedFlowAll(paths)
+		for _, ob := range su.em.obls {
+			ob.Unit = su
+		}
+		units = append(units, su)
 	}
 	scfg := &SolverCfg{TimeoutS: 20, Seed: seed, Dir: dir, Solvers: []string{"z3new", "z3", "cvc5"}, Par: 5}
 	if *tier == "thorough" {
